@@ -166,7 +166,9 @@ def _run_mc_models(names, workdir, tier):
             if m.get("module"):
                 shutil.copy(os.path.join(SPEC, m["module"]), md)
             f = open(logf, "w")
-            p = subprocess.Popen(["tlapm", "--threads", "4", m["tlaps"]], stdout=f, stderr=subprocess.STDOUT, cwd=md)
+            # (--stretch: the back ends' time limits are per obligation and wall-clock: on a loaded machine the default
+            #  5 s can expire for an obligation that normally takes a fraction of a second)
+            p = subprocess.Popen(["tlapm", "--threads", "4", "--stretch", "8", m["tlaps"]], stdout=f, stderr=subprocess.STDOUT, cwd=md)
             procs.append((name, m, p, f, logf, time.time()))
             continue
         if m.get("apalache"):
